@@ -558,6 +558,54 @@ def rule_I14(ctx):
         raise AnalysisError("I14", "positive-control", "a context-held element cache is not recognised")
 
 
+def _mutable_default_sites(fns):
+    """[(where, text)] parameters whose default is a mutable object built once at definition time (a display or list() / dict() /
+    set()) and which the function mutates, returns or stores: the object then carries values from one call to the next"""
+    hits = []
+    MUT = ("append", "extend", "insert", "update", "add", "setdefault", "pop", "popitem", "clear", "remove", "discard", "sort", "reverse", "__setitem__", "__delitem__")
+    for m, q, fn in fns:
+        a = fn.args
+        pos = a.posonlyargs + a.args
+        pairs = list(zip(pos[len(pos) - len(a.defaults):], a.defaults)) + [(k, d) for k, d in zip(a.kwonlyargs, a.kw_defaults) if d is not None]
+        for arg, d in pairs:
+            if not (isinstance(d, (ast.List, ast.Dict, ast.Set, ast.ListComp, ast.DictComp, ast.SetComp))
+                    or (isinstance(d, ast.Call) and isinstance(d.func, ast.Name) and d.func.id in ("list", "dict", "set", "bytearray", "defaultdict", "OrderedDict", "deque"))):
+                continue
+            p = arg.arg
+            rebound_first = False
+            for n in ast.walk(fn):
+                bad = None
+                if isinstance(n, ast.Subscript) and isinstance(n.value, ast.Name) and n.value.id == p and isinstance(n.ctx, (ast.Store, ast.Del)):
+                    bad = "item assignment"
+                elif isinstance(n, ast.AugAssign) and isinstance(n.target, ast.Name) and n.target.id == p:
+                    bad = "augmented assignment"
+                elif isinstance(n, ast.Call) and isinstance(n.func, ast.Attribute) and isinstance(n.func.value, ast.Name) and n.func.value.id == p and n.func.attr in MUT:
+                    bad = f".{n.func.attr}()"
+                elif isinstance(n, ast.Return) and isinstance(n.value, ast.Name) and n.value.id == p:
+                    bad = "returned"
+                elif isinstance(n, ast.Assign) and isinstance(n.value, ast.Name) and n.value.id == p and any(isinstance(t, (ast.Attribute, ast.Subscript)) for t in n.targets):
+                    bad = "stored"
+                if bad:
+                    hits.append((f"{getattr(m, 'path', '?')}:{q}", f"parameter `{p}` defaults to `{norm(d)}` (one object for every call) and is changed or handed on ({bad})", n))
+                    break
+    return hits
+
+
+def rule_I15(ctx):
+    """history (C16): no function keeps values from an earlier call in a mutable default argument"""
+    fns = list(ctx.prog.all_functions())
+    hits = _mutable_default_sites(fns)
+    ctx.ob("I15", hits[0][2] if hits else ctx.prog.modules[sorted(ctx.prog.modules)[0]].tree, "no function carries state from one call to the next in a mutable default argument",
+           not hits, "" if not hits else f"{hits[0][0]}: {hits[0][1]}: an answer then depends on what was listed or exported before", inst="no-mutable-default-state",
+           **({} if hits else {"file": "smpl_extract/info.py", "qualname": "<package>"}))
+    ctx.fact("I15", "functions", len(fns))
+    if len(fns) < 300:
+        raise AnalysisError("I15", "-", f"only {len(fns)} functions found (confirmed: > 400)")
+    ctl = ast.parse("def measure(rows, widths={}):\n    for i, r in enumerate(rows):\n        widths[i] = max(widths.get(i, 0), len(r))\n    return widths\n")
+    if len(_mutable_default_sites([(None, "measure", ctl.body[0])])) != 1:
+        raise AnalysisError("I15", "positive-control", "a mutated mutable default is not recognised")
+
+
 def rule_I1(ctx):
     """a swallowed parse error of one record does not change where / whether the other records are read"""
     # (a) AKAI file table
